@@ -117,7 +117,11 @@ def finish(prop: str, tier: str, results: list[RuleResult], explanation: str,
     known = load_json(os.path.join(VERIF, 'known_findings.json'), {'findings': [], 'fixed': []})
     known_by_key = {k['key']: k for k in known.get('findings', []) if k.get('property') == prop}
 
-    # vacuity guard
+    # vacuity guard: per-rule instance/obligation counts are measured on every run
+    counts = dict(counts)
+    for r in results:
+        counts.setdefault(f'{r.rule}.instances', len(r.instances))
+        counts.setdefault(f'{r.rule}.obligations', r.obligations)
     for name, minimum in baselines.items():
         got = counts.get(name)
         if got is None:
